@@ -52,10 +52,10 @@ fn check_tied(ctx: &mut Ctx, tag: &str, layer: &Layer, period: usize) {
             let (e, eb): (V1, V1) = (w.iter().flat_map(elems).collect(), b.as_ref().map(elems).unwrap_or_default());
             ctx.fact(&format!("{}-copy{}-of-layer{}-count", tag, r, j), e.len() == e0.len() && eb.len() == eb0.len(), String::new());
             for i in 0..e.len().min(e0.len()) {
-                ctx.claim(&format!("{}-weights[layer{}][copy{}][{}]", tag, j, r, i), Th::Fp, B::Same(e[i], e0[i]));
+                ctx.claim(&format!("{}-weights[layer{}][copy{}][{}]", tag, j, r, i), Th::Fp, B::Ident(e[i], e0[i]));
             }
             for i in 0..eb.len().min(eb0.len()) {
-                ctx.claim(&format!("{}-bias[layer{}][copy{}][{}]", tag, j, r, i), Th::Fp, B::Same(eb[i], eb0[i]));
+                ctx.claim(&format!("{}-bias[layer{}][copy{}][{}]", tag, j, r, i), Th::Fp, B::Ident(eb[i], eb0[i]));
             }
             r += 1;
         }
